@@ -167,6 +167,13 @@ class Duck:
         return f"Duck({self._shape},{self._dtype})"
 
 
+class BadReprDuck(Duck):
+    """A duck array that cannot be printed (e.g. a half-initialised object): error messages must still be produced."""
+
+    def __repr__(self):
+        raise RuntimeError("this object cannot be printed")
+
+
 class _MetaArr(type):
     def __instancecheck__(cls, obj):
         hit("atype.instancecheck")
